@@ -166,7 +166,11 @@ func runC11(c *ev.Case, ctx *lib.Ctx, al []appAVP, cc c11Case) {
 	if cc.zeroIDs {
 		hbh, e2e = 0, 0
 	}
-	cer := peer.Msg(0x80, peer.CodeCE, 0, hbh, e2e, avps...)
+	cerFlags := uint8(0x80)
+	if (c.I/5)%2 == 1 {
+		cerFlags |= 0x40 // proxiable bit set: must come back unchanged
+	}
+	cer := peer.Msg(cerFlags, peer.CodeCE, 0, hbh, e2e, avps...)
 	probe := peer.Msg(0xC0, 272, 4, 77, 78, peer.Str(peer.SessionID, refcodec.UTF8String, "s;1"))
 	// half of the cases deliver the CER and an application request in the same
 	// segment, so that the request is already buffered when the CER is decided
@@ -220,6 +224,10 @@ func runC11(c *ev.Case, ctx *lib.Ctx, al []appAVP, cc c11Case) {
 	h := peer.Header(cea)
 	if h.Code != 257 || h.Flags&0x80 != 0 || h.App != 0 {
 		c.Fail(sig("cea-header"), cea, nil, "reply is not a CEA: %+v; %s", h, desc)
+		return
+	}
+	if h.Flags&0x40 != cerFlags&0x40 {
+		c.Fail(sig("cea-pbit"), cea, nil, "CEA flags %#x: the proxiable bit of the CER (flags %#x) was not kept; %s", h.Flags, cerFlags, desc)
 		return
 	}
 	if h.HopByHop != hbh || h.EndToEnd != e2e {
